@@ -12,7 +12,9 @@ mod native {
     fn native_is_confined_small_paths() {
         let segs = ["a", "..", ".", "b.txt"];
         let mut count = 0;
-        for len in 1..=4usize {
+        let deep = std::env::var("RDEST_VERIF_TIER").map(|t| t == "thorough").unwrap_or(false);
+        let max_len = if deep { 7usize } else { 4 };
+        for len in 1..=max_len {
             let total = segs.len().pow(len as u32);
             for code in 0..total {
                 let mut parts = vec![];
@@ -26,7 +28,7 @@ mod native {
                 }
             }
         }
-        assert!(count == 2 * (4 + 16 + 64 + 256));
+        assert!(count == 2 * (1..=max_len).map(|l| 4usize.pow(l as u32)).sum::<usize>());
         // joined the way Metainfo::file_piece_ranges does it: an absolute file path replaces the directory
         assert!(!Extractor::is_confined(&std::path::PathBuf::from("name").join("/etc/passwd")));
         assert!(!Extractor::is_confined(&std::path::PathBuf::from("../name").join("x")));
